@@ -130,6 +130,30 @@ Definition stage1 (fe : option fecenc) (r : req) (now : Z) : option fecenc * byt
       let '(e1, b, ps) := fec_encode e (rq_payload r) now c_maxFECEncodeLatency in (Some e1, b, ps)
   end.
 
+(* postProcess, right after fecEncoder.encode (repair ce5cd67): parity is as long as the longest data
+   packet of its group; if it no longer fits the accepted wire MTU (minus the AEAD overhead) it
+   is not sent.  Only ecc[0] is measured (all parity shards of a group have one length); wire = 0
+   means "no MTU accepted yet".  The encoder has already consumed the parity ids. *)
+Definition drop_long_parity (wire ov hoff : Z) (ps : list bytes) : list bytes :=
+  match ps with
+  | [] => []
+  | p0 :: _ => if (0 <? wire) && (wire - ov <? hoff + blen p0) then [] else ps
+  end.
+
+Definition stage1w (wire ov : Z) (fe : option fecenc) (r : req) (now : Z) : option fecenc * bytes * list bytes :=
+  let '(fe1, b, ps) := stage1 fe r now in
+  (fe1, b, match fe with Some e => drop_long_parity wire ov (fe_hoff e) ps | None => ps end).
+
+(* a history of requests, each with the clock and the wire MTU in force when it is post-processed *)
+Fixpoint stage1w_run (ov : Z) (fe : option fecenc) (rs : list (req * Z * Z)) : option fecenc * list (req * bytes * list bytes) :=
+  match rs with
+  | [] => (fe, [])
+  | (r, now, wire) :: t =>
+    let '(fe1, b, ps) := stage1w wire ov fe r now in
+    let '(fe2, l) := stage1w_run ov fe1 t in
+    (fe2, (r, b, ps) :: l)
+  end.
+
 Fixpoint stage1_run (fe : option fecenc) (rs : list (req * Z)) : option fecenc * list (req * bytes * list bytes) :=
   match rs with
   | [] => (fe, [])
@@ -162,11 +186,16 @@ Definition sess_fec_new (c : cipher) (d p : Z) : option fecenc := fec_new d p (c
 
 (* UDPSession.SetMtu: the core's mtu (KCP.SetMtu accepts IKCP_OVERHEAD < m <= mtuLimit when no
    queued segment is larger than the new mss - that part is the core's) *)
+Definition aead_extra (c : cipher) : Z := if cipher_eqb c CAead then aead_ov else 0.
 Definition sess_kcp_mtu (c : cipher) (fe : option fecenc) (mtu : Z) : Z :=
-  Z.min c_mtuLimit mtu - header_size c fe - (if cipher_eqb c CAead then aead_ov else 0).
+  Z.min c_mtuLimit mtu - header_size c fe - aead_extra c.
 Definition sess_set_mtu (c : cipher) (fe : option fecenc) (mtu : Z) : option Z :=
   let m := sess_kcp_mtu c fe mtu in
   if (m <=? c_IKCP_OVERHEAD) || (c_mtuLimit <? m) then None else Some m.
+
+(* s.wireMtu after the call: stored only when the core accepted (repair ce5cd67) *)
+Definition sess_wire_mtu (c : cipher) (fe : option fecenc) (mtu old_wire : Z) : Z :=
+  match sess_set_mtu c fe mtu with Some _ => Z.min c_mtuLimit mtu | None => old_wire end.
 
 (* Stage 2 for one packet: what leaves for the wire, given the nonce fillRand produced *)
 Definition frame (c : cipher) (nonce body : bytes) : bytes :=
@@ -188,18 +217,18 @@ Fixpoint frame_all (c : cipher) (bodies : list bytes) (nonces : list bytes) : li
   end.
 
 (* one iteration of postProcess: datagrams in the order they enter txqueue, nonces left *)
-Definition pp_step (c : cipher) (fe : option fecenc) (r : req) (now : Z) (nonces : list bytes)
+Definition pp_step (c : cipher) (fe : option fecenc) (wire : Z) (r : req) (now : Z) (nonces : list bytes)
   : option fecenc * list bytes * list bytes :=
-  let '(fe1, b, ps) := stage1 fe r now in
+  let '(fe1, b, ps) := stage1w wire (aead_extra c) fe r now in
   let '(outs, ns) := frame_all c (b :: ps) nonces in
   (fe1, outs, ns).
 
-Fixpoint pp_run (c : cipher) (fe : option fecenc) (rs : list (req * Z)) (nonces : list bytes)
+Fixpoint pp_run (c : cipher) (fe : option fecenc) (rs : list (req * Z * Z)) (nonces : list bytes)
   : option fecenc * list bytes :=
   match rs with
   | [] => (fe, [])
-  | (r, now) :: t =>
-    let '(fe1, outs, ns) := pp_step c fe r now nonces in
+  | (r, now, wire) :: t =>
+    let '(fe1, outs, ns) := pp_step c fe wire r now nonces in
     let '(fe2, l) := pp_run c fe1 t ns in
     (fe2, outs ++ l)
   end.
